@@ -3,6 +3,8 @@ package harness
 import (
 	"bytes"
 	"fmt"
+	"github.com/consensys/gnark/std/math/emulated"
+	"github.com/consensys/gnark/std/math/emulated/emparams"
 
 	"github.com/consensys/gnark-crypto/ecc"
 	"github.com/consensys/gnark/backend/groth16"
@@ -62,8 +64,8 @@ func c11Run(w *Worker, tape *simrt.Tape) *Outcome {
 	}
 	where := []string{"r1cs", "scs"}[be]
 	o.XProc = map[string]string{fmt.Sprintf("ccs/%s/%s/slot%d", where, curve, slot): fmt.Sprintf("%d:%x", len(fx.CCSBytes), hash64(string(fx.CCSBytes)))}
-	mode := ch(5)
-	modeName := []string{"map-permutation", "capacity", "after-others", "concurrent", "keys-reuse"}[mode]
+	mode := ch(6)
+	modeName := []string{"map-permutation", "capacity", "after-others", "concurrent", "keys-reuse", "same-object"}[mode]
 	o.Desc = fmt.Sprintf("%s/%s/slot%d[%s] %s", where, curve, slot, fx.Prog.Kinds(), modeName)
 	o.NonTrivial = true
 	o.probe("mode:" + modeName)
@@ -149,6 +151,61 @@ func c11Run(w *Worker, tape *simrt.Tape) *Outcome {
 				return o
 			}
 		}
+	case 5: // the same circuit VALUE compiled again (state a gadget may have cached inside it)
+		simrt.SetMapTape(tape)
+		defer simrt.SetMapTape(nil)
+		compileObj := func(c frontend.Circuit, b int) ([]byte, error) {
+			var ccs constraint.ConstraintSystem
+			var err error
+			if b == beGroth16 {
+				ccs, err = frontend.Compile(curve.ScalarField(), r1cs.NewBuilder, c)
+			} else {
+				ccs, err = frontend.Compile(curve.ScalarField(), scs.NewBuilder, c)
+			}
+			if err != nil {
+				return nil, err
+			}
+			var buf bytes.Buffer
+			_, err = ccs.WriteTo(&buf)
+			return buf.Bytes(), err
+		}
+		type objCase struct {
+			name  string
+			fresh func() frontend.Circuit
+		}
+		cases := []objCase{
+			{"generated", func() frontend.Circuit { return NewGC(fx.Prog) }},
+			{"emulated-variable-modulus", func() frontend.Circuit { return &varModCircuit{} }},
+			{"emulated-fixed-modulus", func() frontend.Circuit { return &fixModCircuit{} }},
+		}
+		oc := cases[ch(len(cases))]
+		o.probe("same-object:" + oc.name)
+		ref := map[int][]byte{}
+		seq := []int{be, be, 1 - be, be}
+		if oc.name == "generated" {
+			seq = []int{be, be, be} // generated programs are shaped for one builder (wire queries, commitments)
+		}
+		for _, b := range seq[len(seq)-2:] {
+			rb, err := compileObj(oc.fresh(), b)
+			if err != nil {
+				o.violate("recompile-failed", "recompile-failed:"+where, "compiling a fresh circuit value failed: "+err.Error())
+				return o
+			}
+			ref[b] = rb
+		}
+		obj := oc.fresh()
+		for i, b := range seq {
+			got, err := compileObj(obj, b)
+			o.Evals++
+			if err != nil {
+				o.violate("recompile-failed", "recompile-failed:"+where+":same-object:"+oc.name, fmt.Sprintf("compilation %d of the same circuit value (%s builder) failed: %v\ncase: %s", i+1, []string{"r1cs", "scs"}[b], err, o.Desc))
+				return o
+			}
+			if !bytes.Equal(got, ref[b]) {
+				o.violate("nondeterministic-compile", "nondeterministic-compile:"+where+":same-object:"+oc.name, fmt.Sprintf("compilation %d of the same circuit value (%s builder) gave %d bytes, a fresh value of the same circuit gives %d (or different content)\ncase: %s", i+1, []string{"r1cs", "scs"}[b], len(got), len(ref[b]), o.Desc))
+				return o
+			}
+		}
 	case 3: // concurrent compilations under the scheduler
 		cfg := drawPolicy(tape)
 		n := 2 + ch(3)
@@ -215,6 +272,35 @@ func c11Run(w *Worker, tape *simrt.Tape) *Outcome {
 		o.Sample = map[string]any{"case": o.Desc, "bytes": len(fx.CCSBytes), "constraints": fx.NbCons}
 	}
 	return o
+}
+
+// library circuits whose gadgets keep state inside the circuit value
+type varModCircuit struct {
+	A, B, P, R emulated.Element[emparams.Mod1e512]
+}
+
+func (c *varModCircuit) Define(api frontend.API) error {
+	f, err := emulated.NewField[emparams.Mod1e512](api)
+	if err != nil {
+		return err
+	}
+	r := f.ModMul(&c.A, &c.B, &c.P)
+	s := f.ModAdd(r, &c.A, &c.P)
+	f.ModAssertIsEqual(s, &c.R, &c.P)
+	return nil
+}
+
+type fixModCircuit struct {
+	A, B, R emulated.Element[emparams.Secp256k1Fp]
+}
+
+func (c *fixModCircuit) Define(api frontend.API) error {
+	f, err := emulated.NewField[emparams.Secp256k1Fp](api)
+	if err != nil {
+		return err
+	}
+	f.AssertIsEqual(f.Add(f.Mul(&c.A, &c.B), &c.A), &c.R)
+	return nil
 }
 
 // noiseOpts draws compile options for compilations that happen around the one under test.
